@@ -1133,6 +1133,50 @@ func specDecodedLen(buf []byte) uint64 { _, n, _ := specScan(buf); return n }
 // The scanner kernel (asmvc: _parse_string_validate_only window obligations against S4): on success the source
 // length L it found is the offset of the closing quote, so the quote lies inside buf; the decoded length never
 // exceeds the source length; needCopy is only ever raised.
+// The stage-2 machine as the pushdown automaton of the JSON grammar (RFC 8259 with an object/array root; ndjson roots
+// separated by newlines). One line per transition: label, then per structural character consumed (`next`) the set of
+// bytes (hex) under which it is taken, the recognisers called and tape writes made, scope push(kind)/pop, target.
+// Reviewed against the grammar: object = { [string : value (, string : value)*] }, array = [ [value (, value)*] ],
+// value starts with " - 0-9 t f n { [ ; a closer is only accepted in a state of its own bracket kind; after a root
+// value only a newline continues (never taken outside ndjson mode). Everything not listed goes to fail; the end of the
+// index stream goes to succeed, which requires the scope stack to be back at the root.
+// Decided by the frame engine: automaton#transitions-equal-grammar (extracted from go/ssa on every run).
+//@ func (*internalParsedJson).unifiedMachine variant automaton
+//@   props C01 C08 C17
+//@   trusted frame: automaton#transitions-equal-grammar
+//@   transition arrayBegin: next [5d] -> scopeEnd
+//@   transition arrayBegin: next [^5d] -> mainArraySwitch
+//@   transition arrayContinue: next [2c] next -> mainArraySwitch
+//@   transition arrayContinue: next [5d] -> scopeEnd
+//@   transition continueRoot: push(1) write(0,'[') [5b] -> arrayBegin
+//@   transition continueRoot: push(1) write(0,'{') [7b] -> object_begin
+//@   transition entry: push(1) write(0,'r') next -> continueRoot
+//@   transition for.loop: [0a] next -> for.loop
+//@   transition for.loop: pop patch write(*,'r') push(1) write(0,'r') [^0a] -> continueRoot
+//@   transition mainArraySwitch: addNumber [2d] -> arrayContinue
+//@   transition mainArraySwitch: addNumber [30-39] -> arrayContinue
+//@   transition mainArraySwitch: isValidFalseAtom write(0,'f') [66] -> arrayContinue
+//@   transition mainArraySwitch: isValidNullAtom write(0,'n') [6e] -> arrayContinue
+//@   transition mainArraySwitch: isValidTrueAtom write(0,'t') [74] -> arrayContinue
+//@   transition mainArraySwitch: parseString [22] -> arrayContinue
+//@   transition mainArraySwitch: push(3) write(0,'[') [5b] -> arrayBegin
+//@   transition mainArraySwitch: push(3) write(0,'{') [7b] -> object_begin
+//@   transition objectContinue: next [2c] next parseString [22] -> object_key_state
+//@   transition objectContinue: next [7d] -> scopeEnd
+//@   transition object_begin: next [7d] -> scopeEnd
+//@   transition object_begin: next parseString [22] -> object_key_state
+//@   transition object_key_state: next [3a] next addNumber [2d] -> objectContinue
+//@   transition object_key_state: next [3a] next addNumber [30-39] -> objectContinue
+//@   transition object_key_state: next [3a] next isValidFalseAtom write(0,'f') [66] -> objectContinue
+//@   transition object_key_state: next [3a] next isValidNullAtom write(0,'n') [6e] -> objectContinue
+//@   transition object_key_state: next [3a] next isValidTrueAtom write(0,'t') [74] -> objectContinue
+//@   transition object_key_state: next [3a] next parseString [22] -> objectContinue
+//@   transition object_key_state: next [3a] next push(2) write(0,'[') [5b] -> arrayBegin
+//@   transition object_key_state: next [3a] next push(2) write(0,'{') [7b] -> object_begin
+//@   transition scopeEnd: pop write(*,*) patch kind!=3 kind!=2 next [0a] -> for.loop
+//@   transition scopeEnd: pop write(*,*) patch kind!=3 kind==2 -> objectContinue
+//@   transition scopeEnd: pop write(*,*) patch kind==3 -> arrayContinue
+
 //@ func parseStringSimdValidateOnly
 //@   props C04 C05 C16 C17
 //@   trusted asmvc _parse_string_validate_only (window obligations vs S4; the bound argument is not relied upon)
